@@ -196,6 +196,33 @@ def rule_l4(repo):
             'an import cycle is not reported (test `%s in %s` with raise, or the path extension, is missing)' % (nm, path), g.loc)
     return res
 
+def rule_l12(repo):
+    """The limit names an item of the file: loading stops *at that item*, whatever else is true of it.  An item that failed
+    to parse is still an item of the file (the editor asks for exactly this: load up to the broken item, so that it can be
+    repaired in the context in front of it).  In the item loop, therefore, no item goes by without having been compared
+    with the limit: every way round the loop passes a test that mentions the limit."""
+    res = RuleResult('C12.L12', 'every item of the file is compared with the limit before anything else decides about it', floor=1)
+    f = repo.func(BASIC, 'load_theory')
+    cfg = cfg_of(f.node)
+    loops = [n for n in cfg.nodes_of_kind('iter') if any(isinstance(x, ast.Break) for s_ in n.ast.body for x in ast.walk(s_))]
+    need(loops, 'load_theory: item loop with break not found')
+    it = loops[-1]
+    lim = [n for n in cfg.test_nodes() if any(isinstance(x, ast.Name) and x.id == 'limit' for x in ast.walk(n.ast)) and it.id in cfg.reach_from(n)]
+    need(lim, 'load_theory: no test of the limit inside the item loop')
+    body = [b for b, l in it.succ if l == 'loop']
+    # once round the loop without meeting a test of the limit
+    r = cfg.reach_from(body, skip_nodes=lim)
+    bad = it.id in r
+    where = ''
+    if bad:
+        cands = [n for n in cfg.nodes if n.id in r and n.kind == 'test' and n.lineno >= it.lineno]
+        where = ' (line %d: `%s` decides first)' % (cands[0].lineno, src(cands[0].ast, 40)) if cands else ''
+    res.add('%s :: load_theory :: every-item-compared-with-limit' % BASIC, not bad,
+            'every pass through the loop body begins with the test of the limit' if not bad else
+            'an item can go by without being compared with the limit%s: with the limit at an item that failed to parse, load_theory reports the limit as '
+            'missing or runs on to a later item of the same name' % where, '%s:%d' % (BASIC, it.lineno))
+    return res
+
 
 # confirmed writers of the global theory: (file, function) -> reason
 WRITERS = {
@@ -461,4 +488,4 @@ def rule_l11(repo):
 
 
 def rules(repo):
-    return [rule_l1(repo), rule_l2(repo), rule_l3(repo), rule_l4(repo), rule_l5(repo), rule_l6(repo), rule_l7(repo), rule_l8(repo), rule_l9(repo), rule_l10(repo), rule_l11(repo)]
+    return [rule_l1(repo), rule_l2(repo), rule_l3(repo), rule_l4(repo), rule_l5(repo), rule_l6(repo), rule_l7(repo), rule_l8(repo), rule_l9(repo), rule_l10(repo), rule_l11(repo), rule_l12(repo)]
